@@ -1,6 +1,8 @@
 package arrow_record
 
 import (
+	"bytes"
+
 	"go.opentelemetry.io/collector/pdata/pcommon"
 	"go.opentelemetry.io/collector/pdata/pmetric"
 
@@ -255,6 +257,27 @@ func verifOptEq(ha bool, a float64, hb bool, b float64) bool {
 	return verifDoubleEq(a, b)
 }
 
+// verifPickByTime: the order of data points may change. With one point the decoded point is the one at the same
+// index; with several, the harnesses give points distinct concrete times and the decoded point is looked up by
+// time (exactly one must exist).
+func verifPickByTime(i, n int, t pcommon.Timestamp, m int, timeOf func(int) pcommon.Timestamp, p string) int {
+	if n <= 1 {
+		return i
+	}
+	found, cnt := -1, 0
+	for k := 0; k < m; k++ {
+		if timeOf(k) == t {
+			found = k
+			cnt++
+		}
+	}
+	rt.Assert(cnt == 1, p+".each_point_once")
+	if cnt != 1 {
+		return -1
+	}
+	return found
+}
+
 func verifMetricEquiv(a, b pmetric.Metric, p string) {
 	rt.Assert(rt.And(a.Name() == b.Name(), rt.And(a.Description() == b.Description(), a.Unit() == b.Unit())), p+".descriptor")
 	rt.Assert(a.Type() == b.Type(), p+".metric_type")
@@ -275,7 +298,12 @@ func verifMetricEquiv(a, b pmetric.Metric, p string) {
 			return
 		}
 		for i := 0; i < x.Len(); i++ {
-			u, v := x.At(i), y.At(i)
+			u := x.At(i)
+			j := verifPickByTime(i, x.Len(), u.Timestamp(), y.Len(), func(k int) pcommon.Timestamp { return y.At(k).Timestamp() }, p)
+			if j < 0 {
+				continue
+			}
+			v := y.At(j)
 			rt.Assert(rt.And(rt.And(u.StartTimestamp() == v.StartTimestamp(), u.Timestamp() == v.Timestamp()), rt.And(u.Count() == v.Count(), u.Flags() == v.Flags())), p+".hist_scalars")
 			rt.Assert(verifOptEq(u.HasSum(), u.Sum(), v.HasSum(), v.Sum()), p+".hist_sum_presence_value")
 			rt.Assert(verifOptEq(u.HasMin(), u.Min(), v.HasMin(), v.Min()), p+".hist_min_presence_value")
@@ -293,7 +321,12 @@ func verifMetricEquiv(a, b pmetric.Metric, p string) {
 			return
 		}
 		for i := 0; i < x.Len(); i++ {
-			u, v := x.At(i), y.At(i)
+			u := x.At(i)
+			j := verifPickByTime(i, x.Len(), u.Timestamp(), y.Len(), func(k int) pcommon.Timestamp { return y.At(k).Timestamp() }, p)
+			if j < 0 {
+				continue
+			}
+			v := y.At(j)
 			rt.Assert(rt.And(rt.And(u.StartTimestamp() == v.StartTimestamp(), u.Timestamp() == v.Timestamp()),
 				rt.And(rt.And(u.Count() == v.Count(), u.Flags() == v.Flags()), rt.And(u.Scale() == v.Scale(), u.ZeroCount() == v.ZeroCount()))), p+".ehist_scalars")
 			rt.Assert(verifOptEq(u.HasSum(), u.Sum(), v.HasSum(), v.Sum()), p+".ehist_sum_presence_value")
@@ -311,7 +344,12 @@ func verifMetricEquiv(a, b pmetric.Metric, p string) {
 			return
 		}
 		for i := 0; i < x.Len(); i++ {
-			u, v := x.At(i), y.At(i)
+			u := x.At(i)
+			j := verifPickByTime(i, x.Len(), u.Timestamp(), y.Len(), func(k int) pcommon.Timestamp { return y.At(k).Timestamp() }, p)
+			if j < 0 {
+				continue
+			}
+			v := y.At(j)
 			rt.Assert(rt.And(rt.And(u.StartTimestamp() == v.StartTimestamp(), u.Timestamp() == v.Timestamp()),
 				rt.And(rt.And(u.Count() == v.Count(), u.Flags() == v.Flags()), verifDoubleEq(u.Sum(), v.Sum()))), p+".summary_scalars")
 			rt.Assert(u.QuantileValues().Len() == v.QuantileValues().Len(), p+".quantile_count")
@@ -326,13 +364,34 @@ func verifMetricEquiv(a, b pmetric.Metric, p string) {
 	}
 }
 
+func verifFlattenMetrics(md pmetric.Metrics) []pmetric.Metric {
+	var out []pmetric.Metric
+	for i := 0; i < md.ResourceMetrics().Len(); i++ {
+		rm := md.ResourceMetrics().At(i)
+		for j := 0; j < rm.ScopeMetrics().Len(); j++ {
+			ms := rm.ScopeMetrics().At(j).Metrics()
+			for k := 0; k < ms.Len(); k++ {
+				out = append(out, ms.At(k))
+			}
+		}
+	}
+	return out
+}
+
 func verifRoundTripMetrics(p *Producer, c *Consumer, md pmetric.Metrics, tag string) {
 	orig := pmetric.NewMetrics()
 	md.CopyTo(orig)
 	rt.WatchBegin("input", md)
-	h0 := rt.WatchHits()
+	h0 := rt.WatchChangedTag("input")
 	bar, err := p.BatchArrowRecordsFromMetrics(md)
-	rt.Assert(rt.WatchHits() == h0, "C15.frame_input.metrics_untouched")
+	// the engine decides the frame condition on its store instructions; the compiled harness (replay) compares
+	// the serialisation of the input with that of the copy taken before the call
+	same := rt.NativeCheck(func() bool {
+		x, e1 := (&pmetric.ProtoMarshaler{}).MarshalMetrics(md)
+		y, e2 := (&pmetric.ProtoMarshaler{}).MarshalMetrics(orig)
+		return e1 == nil && e2 == nil && bytes.Equal(x, y)
+	})
+	rt.Assert(rt.WatchChangedTag("input") == h0 && same, "C15.frame_input.metrics_untouched")
 	rt.WatchEndTag("input")
 	rt.Assert(err == nil, tag+".encode_ok")
 	if err != nil {
@@ -358,6 +417,19 @@ func verifRoundTripMetrics(p *Producer, c *Consumer, md pmetric.Metrics, tag str
 			om := orig.ResourceMetrics().At(0).ScopeMetrics().At(0).Metrics().At(0)
 			dm := out[0].ResourceMetrics().At(0).ScopeMetrics().At(0).Metrics().At(0)
 			verifMetricEquiv(om, dm, tag)
+		} else if out[0].MetricCount() == orig.MetricCount() {
+			// several metrics: the harness gives them distinct concrete names; the order of metrics may change
+			of, df := verifFlattenMetrics(orig), verifFlattenMetrics(out[0])
+			for _, om := range of {
+				n := 0
+				for _, dm := range df {
+					if dm.Name() == om.Name() {
+						n++
+						verifMetricEquiv(om, dm, tag)
+					}
+				}
+				rt.Assert(n == 1, tag+".each_metric_once")
+			}
 		}
 	})
 }
